@@ -58,6 +58,16 @@ def injections(ver, o, rng):
             oo = copy.deepcopy(o)
             corrupt.get(oo, s.path)["FOOHASH-99"] = "abcdef"
             yield "custom-hash-algorithm", s.section, oo
+            # the same with the custom algorithm first / in the middle of the dictionary (order of detection must not matter)
+            for pos in ("first", "middle"):
+                oo = copy.deepcopy(o)
+                items = list(v.items())
+                if pos == "middle" and len(items) < 2:
+                    items.append(("SHA-256" if "SHA-256" not in v else "SHA-512", V.hash_value(rng, "SHA-256" if "SHA-256" not in v else "SHA-512")))
+                at = 0 if pos == "first" else len(items) // 2
+                items.insert(at, ("FOOHASH-99", "abcdef"))
+                corrupt.setp(oo, s.path, dict(items))
+                yield "custom-hash-algorithm", s.section, oo
             alt = "SHA-224" if ver == "2.1" else "TLSH"
             oo = copy.deepcopy(o)
             corrupt.get(oo, s.path)[alt] = V.hash_value(rng, alt)
@@ -89,6 +99,56 @@ def injections(ver, o, rng):
         oo = copy.deepcopy(o)
         oo["objects"][str(len(oo["objects"]))] = {"type": "x-unknown-observable", "foo": "bar"}
         yield "unregistered-observable", "observable", oo
+
+
+def instance_injections(ver, o, rng):
+    """Pre-built library objects carrying custom content (built with allow_custom=True), to be handed to a host constructor
+    as Python objects: embedded objects, predefined extensions, observed-data elements, bundle members.
+    Yields (site kind, section, path of the nested object in o, instance)."""
+    import stix2
+    mod = stix2.v20 if ver == "2.0" else stix2.v21
+    m = M.model(ver)
+    sl, objects = corrupt.slots(ver, o)
+    for path, tbl, section in objects:
+        if not path:
+            continue
+        cur = corrupt.get(o, path)
+        kind = section.split(":")[0]
+        name = section.split(":", 1)[1] if ":" in section else ""
+        cls = None
+        if kind == "embedded":
+            cls = getattr(mod, name, None)
+        elif kind == "extension":
+            from stix2 import registry
+            cls = registry.class_for_type(name, ver, "extensions")
+        elif kind == "observable":
+            from stix2 import registry
+            cls = registry.class_for_type(name, ver, "observables")
+        elif kind == "member":
+            from stix2 import registry
+            cls = registry.class_for_type(name, ver, "objects") or registry.class_for_type(name, ver, "observables")
+        if cls is None:
+            continue
+        kw = copy.deepcopy(cur)
+        kw["x_custom_prop"] = "v"
+        if kind == "observable" and ver == "2.0":
+            kw["_valid_refs"] = {"*": "*"}
+        try:
+            with warnings.catch_warnings():
+                warnings.simplefilter("ignore")
+                inst = cls(allow_custom=True, **kw)
+        except Exception:
+            continue
+        if not getattr(inst, "has_custom", False):
+            continue
+        yield "prebuilt-instance-with-custom-content", section, path, inst
+
+
+def substitute(o, path, inst):
+    """kwargs for the host constructor: o with the nested dictionary at `path` replaced by the library object"""
+    kw = copy.deepcopy(o)
+    corrupt.setp(kw, path, inst)
+    return kw
 
 
 def strict_routes(ver, t, o, tmp):
@@ -193,6 +253,41 @@ def wl_inject(ctx, rng, i):
             clause_b(ctx, ver, t, oo, site, section, case)
             n += 1
             ctx.count("injections")
+        # pre-built instances with custom content handed to the host constructor
+        cls = cls_for(ver, t)
+        if cls is not None:
+            for site, section, path, inst in instance_injections(ver, o, rng):
+                case = {"version": ver, "type": t, "site": site, "section": section, "nested_path": [str(p) for p in path], "input": o}
+                kw = substitute(o, path, inst)
+                st, r = run(lambda: cls(allow_custom=False, **kw))
+                ctx.ev()
+                ctx.count("strict_attempts")
+                ctx.count("instance_injections")
+                ctx.see("sites", site)
+                ctx.nontrivial(ver, t, site, section, "a:constructor-with-instance")
+                if st == "returned":
+                    ctx.violation("custom-admitted-in-strict-mode:" + site, "%s %s: a pre-built %s carrying custom content was accepted by the strict constructor" % (ver, t, section),
+                                  dict(case, entry_point="constructor(allow_custom=False) with nested library object"))
+                st, obj = run(lambda: cls(allow_custom=True, **substitute(o, path, inst)))
+                if st == "returned":
+                    import stix2
+                    flag = flag_of(obj)
+                    try:
+                        with warnings.catch_warnings():
+                            warnings.simplefilter("ignore")
+                            text = obj.serialize()
+                    except Exception:
+                        continue
+                    if run(lambda: stix2.parse(text, allow_custom=True))[0] == "refused":
+                        continue
+                    st2, r2 = run(lambda: stix2.parse(text, allow_custom=False))
+                    ctx.ev()
+                    ctx.count("flag_true" if flag else "flag_false")
+                    if flag and st2 == "returned":
+                        ctx.violation("flagged-custom-but-strict-accepts:" + site, "has_custom True but strict parse succeeds (pre-built %s)" % section, dict(case, text=text[:2000]))
+                    elif not flag and st2 == "refused":
+                        ctx.violation("custom-content-not-flagged:" + site, "%s %s: host built from a pre-built %s with custom content has has_custom False, yet a strict parse of its serialisation is refused" % (ver, t, section),
+                                      dict(case, text=text[:2000], strict_error=repr(r2)[:300]))
         if ctx.want_sample() and n:
             ctx.sample({"version": ver, "type": t, "base": o, "injection_sites": n})
     finally:
@@ -245,6 +340,8 @@ def floors(m, tier):
     if c.get("strict_attempts", 0) < 2000:
         out.append("fewer than 2000 strict-mode attempts")
     sites = m["seen"].get("sites", set())
+    if c.get("instance_injections", 0) < 100:
+        out.append("fewer than 100 pre-built-instance injections (%d)" % c.get("instance_injections", 0))
     for s in ("custom-property", "custom-hash-algorithm", "reference-to-x-type", "reference-to-unregistered-type", "unregistered-extension",
               "unregistered-member", "unregistered-observable", "none"):
         if s not in sites:
